@@ -300,7 +300,7 @@ func TestC20(t *testing.T) {
 				}
 			}
 			if ok {
-				rep.Outcome("clean-lifecycle")
+				rep.Outcome(fmt.Sprintf("clean-lifecycle history=%s peering-expected=%v", strings.Join(h, ""), expectPeering))
 			} else {
 				rep.Outcome("failed-lifecycle")
 				// best effort cleanup so that later cases start clean.
